@@ -37,6 +37,6 @@ echo "applies=$applies base_demo_exit=$base_demo build=$build vet=$vet pkg_tests
 cp "$patch" $dst/patch.diff; cp "$demo" $dst/; [ -f $out/notes.md ] && cp $out/notes.md $dst/notes.md
 # run the check in /repo
 if [ "$applies" = yes ]; then
-  git -C /repo apply "$patch" && (cd /verif && ./check $id > $dst/check_output.txt 2>&1; echo "check exit $?" >> $dst/check_output.txt); git -C /repo checkout -- .
+  git -C /repo apply "$patch" && (cd /verif && VERIF_EVIDENCE_DIR=/verif/out/seed_evidence ./check $id > $dst/check_output.txt 2>&1; echo "check exit $?" >> $dst/check_output.txt); git -C /repo checkout -- .
   tail -4 $dst/check_output.txt
 fi
